@@ -62,6 +62,7 @@ def values(thorough):
       ('Req partial', lambda: fx.Req.partial(child=fx.Req.partial(a=1))),
       ('class', lambda: N), ('classes in list', lambda: [N, fx.Typed, int, str]),
       ('function', lambda: module_fn), ('function in dict', lambda: {'f': module_fn, 'g': [len]}),
+      ('C functions of several modules', lambda: [len, __import__('math').sqrt, __import__('math').pow, __import__('operator').add, abs, pow]),
       ('lambdas sharing one code object', _lambdas), ('lambdas in dict', lambda: dict(zip('abcd', _lambdas()))),
       ('oneof', lambda: pg.oneof([1, 'a', N(x=pg.oneof([1, 2]))])), ('manyof', lambda: pg.manyof(2, [1, 2, 3], distinct=False, sorted=True)),
       ('floatv', lambda: pg.floatv(0.0, 1.0)), ('hyper in object', lambda: N(x=pg.oneof([1, 2]), items=[pg.floatv(-1.0, 1.0)])),
